@@ -74,7 +74,7 @@ func panicRules(roots []string) func(p *Prog, r *Report) {
 
 func init() {
 	register("C01",
-		"Structural clauses of 'XML decodes to the documented Map under all options' decided on xmlToMapParser: INFL.cover (attribute keys depend on attrPrefix, lowerCase, snakeCaseKeys and the attribute name; element keys on lowerCase/snakeCaseKeys; text on trimRunes and xmlEscapeCharsDecoder and passes through cast with the decoder's flag; text-key choice on decodeSimpleValuesAsMap; _seq only under includeTagSeqNum), INFL.castflag (structure independent of the cast flag), TABLE.keys (shared key variables, no literals), DECODE.sibling (every decoded child is stored on every path; repeated siblings are append(existing, new)), PAIR.seqnum (the _seq number is a running counter advanced with every child), OPT.setter + PAIR.derived for the options the decoder reads (each setter stores what its documentation says for no, one and more arguments; trimRunes follows disableTrimWhiteSpace), TEXT.nonempty (character data is stored only under a non-emptiness test of the trimmed text that is stored: white space between children never becomes or overwrites a text value), FOLD.total (snake-case folding replaces every hyphen), TABLE.escape (decoder-side escaping touches exactly the five special characters, '&' first), PANIC.nil/assert/idx on the decoder. Not decided: equality of the produced Map with the documented one (trimming results, collisions, case-folding values)."+levelNote,
+		"Structural clauses of 'XML decodes to the documented Map under all options' decided on xmlToMapParser: INFL.cover (attribute keys depend on attrPrefix, lowerCase, snakeCaseKeys and the attribute name; element keys on lowerCase/snakeCaseKeys; text on trimRunes and xmlEscapeCharsDecoder and passes through cast with the decoder's flag; text-key choice on decodeSimpleValuesAsMap; _seq only under includeTagSeqNum), INFL.castflag (structure independent of the cast flag), TABLE.keys (shared key variables, no literals), DECODE.sibling (every decoded child is stored on every path; repeated siblings are append(existing, new)), PAIR.seqnum (the _seq number is a running counter advanced with every child), OPT.setter + PAIR.derived for the options the decoder reads (each setter stores what its documentation says for no, one and more arguments; trimRunes follows disableTrimWhiteSpace), TEXT.nonempty (character data is stored only under a non-emptiness test of the trimmed text that is stored: white space between children never becomes or overwrites a text value), FOLD.total (snake-case folding replaces every hyphen), TABLE.escape (decoder-side escaping touches exactly the five special characters, '&' first), PANIC.nil/assert/idx on the decoder. Not decided: equality of the produced Map with the documented one (trimming results, collisions, case-folding values). TEXT.trimset (character data is trimmed with the option's cut set trimRunes only); TABLE.naninf for the decoder's cast."+levelNote,
 		[]string{"documented option semantics transcribed in rules_infl.go"},
 		ruleInflCover,
 		func(p *Prog, r *Report) { ruleInflCastFlag(p, r) },
@@ -91,7 +91,7 @@ func init() {
 		panicRules(grpMapDecode))
 
 	register("C02",
-		"Structural agreement of decoder and encoder conventions: TABLE.keys (both halves read the shared key variables), FOLD.total (the decoder's snake-case folding replaces every hyphen, so it is idempotent: the names the encoder writes decode to themselves), PAIR.derived (lenAttrPrefix tracks attrPrefix), TABLE.partition (attribute / text / element partition of a map's keys is the same predicate in both scans), ESC.flow (every Map value reaches the output escaped unless xmlEscapeChars is known false), TABLE.escape (entity table, order, no unescaped early return), ORDER (sorted emission), WALK.arms (every list member and collected child is encoded), TAGS.protocol (path-sensitive typestate of the Map element encoder: on every path feasible for a decoder-shaped value the buffer writes follow start tag, attributes, close, content, end tag / self-close; start and end tag name the same parameter; no successful return leaves an open element), ROOT.single (each encoder passes exactly one call of the element encoder on every path that returns a document; the call on the receiver's single entry is guarded by len == 1), TAGS.content (on no path is the element completed while its text entry or scalar value — string, number or boolean, as float/bool casting produces — has not been written). Not decided: equality of the second decode with the first; well-formedness of names and of the sequence encoder's output."+levelNote,
+		"Structural agreement of decoder and encoder conventions: TABLE.keys (both halves read the shared key variables), FOLD.total (the decoder's snake-case folding replaces every hyphen, so it is idempotent: the names the encoder writes decode to themselves), PAIR.derived (lenAttrPrefix tracks attrPrefix), TABLE.partition (attribute / text / element partition of a map's keys is the same predicate in both scans), ESC.flow (every Map value reaches the output escaped unless xmlEscapeChars is known false), TABLE.escape (entity table, order, no unescaped early return), ORDER (sorted emission), WALK.arms (every list member and collected child is encoded), TAGS.protocol (path-sensitive typestate of the Map element encoder: on every path feasible for a decoder-shaped value the buffer writes follow start tag, attributes, close, content, end tag / self-close; start and end tag name the same parameter; no successful return leaves an open element), ROOT.single (each encoder passes exactly one call of the element encoder on every path that returns a document; the call on the receiver's single entry is guarded by len == 1), TAGS.content (on no path is the element completed while its text entry or scalar value — string, number or boolean, as float/bool casting produces — has not been written). Not decided: equality of the second decode with the first; well-formedness of names and of the sequence encoder's output. ROOT.ownkey (in the single-member case the whole Map is wrapped in the default root only for a list member)."+levelNote,
 		nil,
 		ruleTagProtocol, func(p *Prog, r *Report) { ruleTagContent(p, r, "map") }, ruleTableKeys, ruleRootSingle, ruleRootOwnKey,
 		ruleInflCover, ruleTableNanInf,
@@ -104,7 +104,7 @@ func init() {
 		func(p *Prog, r *Report) { ruleWalkArms(p, r, []string{"mxj.marshalMapToXmlIndent"}) })
 
 	register("C03",
-		"Structural clauses of 'encoding a JSON-shaped value as XML preserves all data': WALK.arms (every list member encoded in order under its key, every collected child encoded, AnyXml encodes every member of a list value), ROOT.explicit (AnyXml / AnyXmlIndent always name the root when they hand a map to Map.Xml / XmlIndent), TABLE.partition, ESC.flow, TABLE.escape (all five special characters are escaped, '&' first, no early return leaves one unescaped), ERR.path on the Map encoders and AnyXml/AnyXmlIndent (an element encoder error cannot be overwritten or dropped), TAGS.protocol (typestate of the element encoder: every path feasible for a JSON-shaped value writes a complete, properly nested element), TAGS.content (no scalar value or text entry is dropped: a write computed from it precedes the end of the element on every path), OWN.private (the document returned is not reachable from package state — a pooled or cached buffer — so no later call can rewrite it), RENDER.lossless (no value-changing numeric conversion between the encoded value and its text). Not decided: decode(encode(m)) ≅ m; well-formedness for arbitrary key strings."+levelNote,
+		"Structural clauses of 'encoding a JSON-shaped value as XML preserves all data': WALK.arms (every list member encoded in order under its key, every collected child encoded, AnyXml encodes every member of a list value), ROOT.explicit (AnyXml / AnyXmlIndent always name the root when they hand a map to Map.Xml / XmlIndent), TABLE.partition, ESC.flow, TABLE.escape (all five special characters are escaped, '&' first, no early return leaves one unescaped), ERR.path on the Map encoders and AnyXml/AnyXmlIndent (an element encoder error cannot be overwritten or dropped), TAGS.protocol (typestate of the element encoder: every path feasible for a JSON-shaped value writes a complete, properly nested element), TAGS.content (no scalar value or text entry is dropped: a write computed from it precedes the end of the element on every path), OWN.private (the document returned is not reachable from package state — a pooled or cached buffer — so no later call can rewrite it), RENDER.lossless (no value-changing numeric conversion between the encoded value and its text). Not decided: decode(encode(m)) ≅ m; well-formedness for arbitrary key strings. ROOT.ownkey (in the single-member case the whole Map is wrapped in the default root only for a list member)."+levelNote,
 		nil,
 		ruleTagProtocol, func(p *Prog, r *Report) { ruleTagContent(p, r, "map") }, ruleRootSingle, ruleRootOwnKey,
 		func(p *Prog, r *Report) { ruleRenderLossless(p, r, []string{"mxj.marshalMapToXmlIndent"}) },
@@ -119,7 +119,7 @@ func init() {
 		})
 
 	register("C04",
-		"Structural clauses of the MapSeq round trip: PAIR.seq (every token kind gets a fresh sequence number that is advanced in the same block; attributes take their index; the child collection skips exactly the attribute and sequence keys), ORDER on the sequence encoder (attributes and children are sorted by sequence number before any write), DECODE.sibling and WALK.arms for the sequence codec, SHAPE.seq (decoder output has the shape the encoder asserts), PANIC.* on both halves, WRAP.compose for BeautifyXml, TAGS.seqprotocol (token-level typestate of the sequence encoder: < name, blank name = quoted value, then either > content </ name > or />, comment / directive / processing-instruction forms; no successful return leaves an open element), TAGS.content (the text entry and the scalar value are written on every path that completes the element, for strings and for the numbers / booleans casting produces), OWN.private (the encoded document is not reachable from package state), SEQ.unwind (every member of a list of same-named children is a sort entry of its own), SEQ.result (the map the decoder returns for an element is written only when the element ends, so nothing collected for it is dropped), SEQ.types (every typed read of a '#seq' entry accepts int and float64), SEQ.leafkeys (every scan of an element's keys sets the same reserved keys aside as the child collection does), TEXT.nonempty (character data is recorded only under a non-emptiness test of the trimmed text that is stored, so indentation never replaces an element's text), RENDER.lossless. Not decided: token-stream equality."+levelNote,
+		"Structural clauses of the MapSeq round trip: PAIR.seq (every token kind gets a fresh sequence number that is advanced in the same block; attributes take their index; the child collection skips exactly the attribute and sequence keys), ORDER on the sequence encoder (attributes and children are sorted by sequence number before any write), DECODE.sibling and WALK.arms for the sequence codec, SHAPE.seq (decoder output has the shape the encoder asserts), PANIC.* on both halves, WRAP.compose for BeautifyXml, TAGS.seqprotocol (token-level typestate of the sequence encoder: < name, blank name = quoted value, then either > content </ name > or />, comment / directive / processing-instruction forms; no successful return leaves an open element), TAGS.content (the text entry and the scalar value are written on every path that completes the element, for strings and for the numbers / booleans casting produces), OWN.private (the encoded document is not reachable from package state), SEQ.unwind (every member of a list of same-named children is a sort entry of its own), SEQ.result (the map the decoder returns for an element is written only when the element ends, so nothing collected for it is dropped), SEQ.types (every typed read of a '#seq' entry accepts int and float64), SEQ.leafkeys (every scan of an element's keys sets the same reserved keys aside as the child collection does), TEXT.nonempty (character data is recorded only under a non-emptiness test of the trimmed text that is stored, so indentation never replaces an element's text), RENDER.lossless. Not decided: token-stream equality. TEXT.trimset (character data is trimmed with the option's cut set only), ESC.verbatim (nothing in the arms for comments, directives and processing instructions reaches escapeChars), ROOT.ownkey (default-root wrap only for a list member)."+levelNote,
 		nil,
 		ruleTagProtocolSeq, func(p *Prog, r *Report) { ruleTagContent(p, r, "seq") },
 		func(p *Prog, r *Report) {
@@ -138,7 +138,7 @@ func init() {
 		panicRules(concat(grpSeqDecode, grpSeqEncode, grpBeautify)))
 
 	register("C05",
-		"Structural clauses of 'special characters survive; invalid output is an error': ESC.flow (value sinks of both encoders), TABLE.escape, OPT.excl (encoder- and decoder-side escaping never both on), VALID.coupling (each of the four encoders validates the very bytes it returns, under xmlCheckIsValid, to their end, with a decoder that keeps the default strict settings and reads a copy, not the output buffer), ERR.path on the four encoders (an encoder or validator error always reaches the caller), TAGS.protocol / TAGS.seqprotocol (the markup the two element encoders write around the escaped values is a properly nested start tag / attributes / content / end tag sequence on every path). Not decided: exact value recovery, absence of double escaping for already-escaped input, well-formedness of names."+levelNote,
+		"Structural clauses of 'special characters survive; invalid output is an error': ESC.flow (value sinks of both encoders), TABLE.escape, OPT.excl (encoder- and decoder-side escaping never both on), VALID.coupling (each of the four encoders validates the very bytes it returns, under xmlCheckIsValid, to their end, with a decoder that keeps the default strict settings and reads a copy, not the output buffer), ERR.path on the four encoders (an encoder or validator error always reaches the caller), TAGS.protocol / TAGS.seqprotocol (the markup the two element encoders write around the escaped values is a properly nested start tag / attributes / content / end tag sequence on every path). Not decided: exact value recovery, absence of double escaping for already-escaped input, well-formedness of names. ROOT.ownkey."+levelNote,
 		nil,
 		ruleTagProtocol, ruleTagProtocolSeq, ruleEsc, ruleTableEscape, ruleOptExcl, ruleValidCoupling, ruleRootSingle, ruleRootOwnKey, ruleInflCover,
 		func(p *Prog, r *Report) {
@@ -146,7 +146,7 @@ func init() {
 		})
 
 	register("C06",
-		"Structural clauses of 'JSON encode/decode is lossless': TABLE.norewrite (the bytes returned by Json/JsonIndent come from encoding/json without textual substitution; safeEncoding selects the escaping mode), INFL.cover (JsonUseNumber controls Decoder.UseNumber), WRAP.compose (Copy = Json then NewMapJson), WRAP.writer (the Writer forms hand the writer exactly the encoder's bytes), ERR.path on the JSON functions, OWN.private (the bytes / the copy returned are not reachable from package state, so a later encode cannot rewrite them). Not decided: agreement with encoding/json on acceptance; array wrapping."+levelNote,
+		"Structural clauses of 'JSON encode/decode is lossless': TABLE.norewrite (the bytes returned by Json/JsonIndent come from encoding/json without textual substitution; safeEncoding selects the escaping mode), INFL.cover (JsonUseNumber controls Decoder.UseNumber), WRAP.compose (Copy = Json then NewMapJson), WRAP.writer (the Writer forms hand the writer exactly the encoder's bytes), ERR.path on the JSON functions, OWN.private (the bytes / the copy returned are not reachable from package state, so a later encode cannot rewrite them). Not decided: agreement with encoding/json on acceptance; array wrapping. JSON.firstvalue (NewMapJson answers without the decoder only for the empty input; one Decode, none in a loop or after another)."+levelNote,
 		nil,
 		func(p *Prog, r *Report) {
 			ruleOwnPrivate(p, r, []string{"mxj.Map.Json", "mxj.Map.JsonIndent", "mxj.Map.JsonWriterRaw", "mxj.Map.JsonIndentWriterRaw", "mxj.Map.Copy"})
@@ -208,7 +208,7 @@ func init() {
 		panicRules([]string{"mxj.Map.ValuesForPath", "mxj.Map.ValueForPath", "mxj.Map.ValueForPathString", "mxj.Map.Exists"}))
 
 	register("C08",
-		"Structural clauses of key search and sub-key filters: WALK.total (hasKey and hasKeyPath visit every map entry and list member), WALK.collect, PAIR.count (ValuesForKey), INFL.filter (sub-keys reach only the predicate; no sub-keys means no filtering; the predicate is read-only), INFL.crumb (child paths never contain the searched key), INFL.metric (shortest path by segment count), INFL.cover (sub-key specifications are split on fieldSep), EFFECT.recv for the query methods, PRESENCE.commaok, PRED.local (the sub-key predicate rejects a map only inside the loop over the conditions). Not decided: set equality between ValuesForKey, PathsForKey and ValuesForPath; the predicate's truth table."+levelNote,
+		"Structural clauses of key search and sub-key filters: WALK.total (hasKey and hasKeyPath visit every map entry and list member), WALK.collect, PAIR.count (ValuesForKey), INFL.filter (sub-keys reach only the predicate; no sub-keys means no filtering; the predicate is read-only), INFL.crumb (child paths never contain the searched key), INFL.metric (shortest path by segment count), INFL.cover (sub-key specifications are split on fieldSep), EFFECT.recv for the query methods, PRESENCE.commaok, PRED.local (the sub-key predicate rejects a map only inside the loop over the conditions). Not decided: set equality between ValuesForKey, PathsForKey and ValuesForPath; the predicate's truth table. OPT.setter for SetFieldSeparator; PAIR.count for the path walker's counter (appends and advances paired by amount)."+levelNote,
 		nil,
 		func(p *Prog, r *Report) {
 			ruleWalkTotal(p, r, []walkerSpec{{"mxj.hasKey", nil}, {"mxj.hasKeyPath", nil}})
@@ -244,7 +244,7 @@ func init() {
 		panicRules([]string{"mxj.Map.ValuesForKey", "mxj.Map.ValueForKey", "mxj.Map.PathsForKey", "mxj.Map.PathForKeyShortest"}))
 
 	register("C09",
-		"Structural clauses of LeafNodes: WALK.total (getLeafNodes visits every entry and member; skips depend only on the no-attribute option and the attribute prefix; the scalar arm appends exactly one LeafNode carrying the node), WRAP.compose + FWD (LeafPaths/LeafValues are projections of LeafNodes and forward their option), PANIC.idx/assert on the walker, ATTR.guard (a key is tested against the attribute prefix only where the prefix is known non-empty), PRESENCE.commaok on the walker and on the path resolution it must agree with (a null leaf is a value), WALK.lastindex (a path ending in an indexed step resolves to the member whatever its type). Not decided: that each path resolves to exactly its value."+levelNote,
+		"Structural clauses of LeafNodes: WALK.total (getLeafNodes visits every entry and member; skips depend only on the no-attribute option and the attribute prefix; the scalar arm appends exactly one LeafNode carrying the node), WRAP.compose + FWD (LeafPaths/LeafValues are projections of LeafNodes and forward their option), PANIC.idx/assert on the walker, ATTR.guard (a key is tested against the attribute prefix only where the prefix is known non-empty), PRESENCE.commaok on the walker and on the path resolution it must agree with (a null leaf is a value), WALK.lastindex (a path ending in an indexed step resolves to the member whatever its type). Not decided: that each path resolves to exactly its value. LEAF.attrfilter (every member loop below LeafNodes that hands the key on contains the attribute-prefix test); ITER.fresh for parsePath."+levelNote,
 		nil,
 		func(p *Prog, r *Report) {
 			ruleWalkTotal(p, r, []walkerSpec{{"mxj.getLeafNodes", []string{"param:noattr", "load(mxj.attrPrefix)"}}})
@@ -353,7 +353,7 @@ func init() {
 		})
 
 	register("C14",
-		"Structural clauses of casting: INFL.castflag (the cast flag reaches only cast() and the recursion, so structure cannot depend on it; every cast option is read only on the flag-true path; every return of cast is the identical input string or a successful strconv.Parse* of it), TABLE.naninf (with CastNanInf off all seven spellings strconv.ParseFloat accepts for NaN/Inf are excluded before its result can be returned), cast call-site coverage (attribute, text and simple values of both decoders pass through cast with the decoder's flag), OPT.writers (cast and the decoders write no package variable: what a decode returns depends on the document and the options in force, not on earlier decodes), CAST.opaque (the decoders never test a value of the node under construction for a scalar type: what cast made of a text cannot change the keys), CAST.input (the string handed to cast is computed from the current token only, never from a value read back from the node being built, which has already been cast). Not decided: that each leaf gets exactly the value its text denotes."+levelNote,
+		"Structural clauses of casting: INFL.castflag (the cast flag reaches only cast() and the recursion, so structure cannot depend on it; every cast option is read only on the flag-true path; every return of cast is the identical input string or a successful strconv.Parse* of it), TABLE.naninf (with CastNanInf off all seven spellings strconv.ParseFloat accepts for NaN/Inf are excluded before its result can be returned), cast call-site coverage (attribute, text and simple values of both decoders pass through cast with the decoder's flag), OPT.writers (cast and the decoders write no package variable: what a decode returns depends on the document and the options in force, not on earlier decodes), CAST.opaque (the decoders never test a value of the node under construction for a scalar type: what cast made of a text cannot change the keys), CAST.input (the string handed to cast is computed from the current token only, never from a value read back from the node being built, which has already been cast). Not decided: that each leaf gets exactly the value its text denotes. OPT.setter for the cast option setters."+levelNote,
 		[]string{"strconv.ParseFloat documentation (accepted NaN/Inf spellings)"},
 		ruleInflCastFlag, ruleTableNanInf, ruleInflCover, ruleCastParsers, ruleOptWriters, ruleSeqCover, ruleSeqCastTag,
 		ruleOptSetterFor([]string{"mxj.castToInt", "mxj.castToFloat", "mxj.castToBool", "mxj.castNanInf", "mxj.checkTagToSkip"}),
@@ -421,7 +421,7 @@ func init() {
 		})
 
 	register("C20",
-		"Wrapper conformance in the resolved program: WRAP.compose over every exported function of j2x (16), x2j (16) and the thin x2j-wrapper forms (19): the module calls are exactly the documented composition, each step is applied to the result of the previous one under its err==nil edge, returned values are results of the composition; FWD.param/FWD.variadic (every parameter reaches the wrapped call); FWD.identity (string / list / byte arguments reach the core call as the parameter itself); SCAN.complete (a member of another type never ends a scan over list members); for x2j-wrapper's re-implemented walkers INFL.crumb, WALK.total, WALK.progress, WALK.collect, INFL.metric; LOOP.handler and IO.read on its bulk forms; ERR.path; OPT.dead for the wrapper's own option. Not decided: value equality of results."+levelNote,
+		"Wrapper conformance in the resolved program: WRAP.compose over every exported function of j2x (16), x2j (16) and the thin x2j-wrapper forms (19): the module calls are exactly the documented composition, each step is applied to the result of the previous one under its err==nil edge, returned values are results of the composition; FWD.param/FWD.variadic (every parameter reaches the wrapped call); FWD.identity (string / list / byte arguments reach the core call as the parameter itself); SCAN.complete (a member of another type never ends a scan over list members); for x2j-wrapper's re-implemented walkers INFL.crumb, WALK.total, WALK.progress, WALK.collect, INFL.metric; LOOP.handler and IO.read on its bulk forms; ERR.path; OPT.dead for the wrapper's own option. Not decided: value equality of results. FWD.pure (the getAttrs flag handed to the walker by ValuesFromKeyPath / ValuesAtKeyPath depends on the optional argument only)."+levelNote,
 		[]string{"wrapper documentation transcribed in rules_wrap.go"},
 		func(p *Prog, r *Report) { ruleWrapCompose(p, r, j2xSpecs()) },
 		func(p *Prog, r *Report) { ruleWrapCompose(p, r, x2jSpecs()) },
